@@ -136,7 +136,7 @@ pub fn substeps(o: &Opts, rep: &mut Report) {
                 let bin = format!("{}/x86_64-unknown-linux-gnu/release/cbverif", tdir);
                 let run = Command::new(&bin)
                     .env("TSAN_OPTIONS", "halt_on_error=1 exitcode=66 second_deadlock_stack=1")
-                    .args(["slice", "--prop", &o.prop, "--seed", &o.seed.to_string(), "--cases", "40"])
+                    .args(["slice", "--prop", &o.prop, "--seed", &o.seed.to_string(), "--cases", "3000"])
                     .output();
                 match run {
                     Err(e) => J::obj().set("step", J::s("tsan")).set("outcome", J::s(&format!("skipped: cannot run {}: {}", bin, e))),
@@ -170,4 +170,70 @@ pub fn substeps(o: &Opts, rep: &mut Report) {
         results.push(j.set("wall_s", J::Num(t0.elapsed().as_secs_f64())));
     }
     rep.extra.push(("sanitizer_substeps".into(), J::Arr(results)));
+}
+
+// ---------------------------------------------------------------------------------------------
+// C15: stack depth does not grow with the number of items. Runs in a child process on a thread
+// with a small stack; a stack overflow kills only the child.
+// ---------------------------------------------------------------------------------------------
+
+pub fn deepiter_main(items: usize) -> i32 {
+    use std::sync::atomic::{AtomicUsize, Ordering};
+    use std::sync::Arc;
+    let n = Arc::new(AtomicUsize::new(0));
+    let n2 = Arc::clone(&n);
+    let h = std::thread::Builder::new()
+        .stack_size(256 * 1024)
+        .spawn(move || {
+            let it = crate::pull::CountIter::new(0, 0, Some(items), None);
+            let mut it = it;
+            it.budget = usize::MAX;
+            // for_each pulls again from inside every data handler
+            callbag::pipe!(
+                callbag::from_iter(it),
+                callbag::for_each(move |_x: i64| {
+                    n2.fetch_add(1, Ordering::SeqCst);
+                })
+            );
+        })
+        .unwrap();
+    let ok = h.join().is_ok();
+    println!("DEEPITER delivered={} of {} joined_ok={}", n.load(Ordering::SeqCst), items, ok);
+    if ok && n.load(Ordering::SeqCst) == items {
+        0
+    } else {
+        1
+    }
+}
+
+pub fn deepiter_substep(o: &Opts, rep: &mut Report) {
+    let items = if o.tier == "thorough" { 2_000_000 } else { 200_000 };
+    let exe = match std::env::current_exe() {
+        Ok(e) => e,
+        Err(e) => {
+            rep.inconclusive.push(format!("cannot locate own executable: {}", e));
+            return;
+        },
+    };
+    let out = Command::new(exe).args(["deepiter", "--cases", &items.to_string()]).output();
+    match out {
+        Err(e) => rep.inconclusive.push(format!("cannot run the deep-iterator child: {}", e)),
+        Ok(out) => {
+            let so = String::from_utf8_lossy(&out.stdout).to_string();
+            let line = so.lines().find(|l| l.starts_with("DEEPITER")).unwrap_or("").to_string();
+            if out.status.success() {
+                rep.bump("c15.deep-iterator-items-on-256KiB-stack", items as u64);
+                rep.evaluations += 1;
+                rep.extra.push(("deep_iterator_child".into(), J::s(&line)));
+            } else {
+                let d = format!(
+                    "from_iter over {} items with a sink that pulls from inside its data handler, on a thread with a 256 KiB stack: child exited with {:?} ({})",
+                    items,
+                    out.status,
+                    line
+                );
+                rep.add_violation("C15", "from_iter/stack-grows-with-items", &d, "E2d:deepiter", J::s(&tail(&String::from_utf8_lossy(&out.stderr), 10)));
+            }
+        },
+    }
 }
